@@ -44,6 +44,7 @@ def check(ctx):
     ctx.guard("C17-B", C01.rule_b, "C17-B", flt)
     ctx.guard("C17-C", C01.rule_c, "C17-C", flt)
     ctx.guard("C17-E", rule_e)
+    ctx.guard("C17-C", rule_token_progress)
 
 
 def rule_e(ctx):
@@ -86,3 +87,38 @@ def rule_e(ctx):
     aa = F.one("css::StyleData::add_author_css")
     ctx.check(F.callers_of(aa.id) == ["css::dom_extract::dom_to_stylesheet"], "C17-E", "add_author_css:callers", aa.span, aa.id,
               str(F.callers_of(aa.id)))
+
+
+def rule_token_progress(ctx):
+    """The manual loop of skip_to_end_of_statement makes progress only if parse_token consumes input whenever it
+    succeeds.  Every `Ok((remainder, token))` that parse_token returns must have a remainder that is *not* the
+    string being tokenised itself (the receiver of `.chars()`): it must be a tail slice `&rest[k..]`, or the
+    remainder handed back by a sub-parser / strip_prefix."""
+    F = ctx.facts
+    b = F.one("css::parser::parse_token")
+    ch = b.calls(lambda cd, t: callee_method(t) == "chars")
+    require(len(ch) >= 1, "parse_token must look at rest.chars()")
+    src = direct_place(b, ch[0][1]["args"][0])
+    require(src is not None, "tokenised string")
+    n = 0
+    bad = []
+    for bb in sorted(b.reachable()):
+        for st in b.stmts(bb):
+            rv = st.get("rv") or {}
+            if st["k"] == "assign" and st["lhs"]["l"] == 0 and not st["lhs"]["p"] and rv.get("agg") == "adt" and rv.get("variant") == "Ok":
+                # operand: a tuple (remainder, token)
+                tpl = op_place(rv["ops"][0])
+                sd = b.single_def(tpl["l"]) if tpl is not None else None
+                if not (sd and sd[0] == "stmt" and (sd[3].get("rv") or {}).get("agg") == "tuple"):
+                    continue
+                n += 1
+                rem = direct_place(b, sd[3]["rv"]["ops"][0])
+                if rem is not None and rem["l"] == src["l"] and rem["p"] == src["p"]:
+                    bad.append(st["span"])
+    ctx.floor("C17-C", "Ok((remainder, token)) returns of parse_token", n, 20)
+    ctx.check(not bad, "C17-C", "parse_token:every-success-consumes-input", bad[0] if bad else b.span, b.id,
+              "parse_token returns Ok with the unconsumed input as remainder at %s: a caller looping on it (skip_to_end_of_statement) "
+              "never terminates" % bad)
+    # parse_token is the only source of the loop's new remainder
+    sk = F.one("css::parser::skip_to_end_of_statement")
+    ctx.check(bool(sk.calls(lambda cd, t: cd == b.id)), "C17-C", "skip_to_end_of_statement:uses-parse_token", sk.span, sk.id, "")
